@@ -219,6 +219,14 @@ func (c *Ctx) runCase(sp *Space, i int64) {
 	sp.Run(c, i)
 }
 
+// RepoDir is the checkout being checked (frames under it identify the bkl site of a panic).
+func RepoDir() string {
+	if d := os.Getenv("VERIF_REPO"); d != "" {
+		return d
+	}
+	return "/repo"
+}
+
 // panicSite extracts the first frame inside /repo from a stack trace: the
 // witness of a panic is where in bkl it happened.
 func panicSite(st string) string {
@@ -227,7 +235,7 @@ func panicSite(st string) string {
 		if strings.Contains(l, "panic(") {
 			for _, m := range lines[i+1:] {
 				m = strings.TrimSpace(m)
-				if strings.HasPrefix(m, "/repo/") {
+				if strings.HasPrefix(m, RepoDir()+"/") {
 					if j := strings.Index(m, " "); j > 0 {
 						m = m[:j]
 					}
@@ -238,7 +246,7 @@ func panicSite(st string) string {
 	}
 	for _, m := range lines {
 		m = strings.TrimSpace(m)
-		if strings.HasPrefix(m, "/repo/") {
+		if strings.HasPrefix(m, RepoDir()+"/") {
 			if j := strings.Index(m, " "); j > 0 {
 				m = m[:j]
 			}
@@ -684,7 +692,7 @@ func crashSite(stderr string) string {
 	site := ""
 	for _, l := range lines {
 		l = strings.TrimSpace(l)
-		if strings.HasPrefix(l, "/repo/") {
+		if strings.HasPrefix(l, RepoDir()+"/") {
 			if j := strings.Index(l, " "); j > 0 {
 				l = l[:j]
 			}
